@@ -299,6 +299,18 @@ def generate(template_path):
             report['serves'] = ln.split()[1:]; i += 1; continue
         if ln.startswith('//@replay'):
             report['replay'] = ln.split(None, 1)[1].strip(); i += 1; continue
+        if ln.startswith('//@expect'):
+            # //@expect FILE :: /REGEX/ :: COUNT   - a textual assumption about code that is not extracted
+            parts = [q.strip() for q in re.split(r'\s+::\s+', ln.split(None, 1)[1])]
+            try:
+                txt = open(os.path.join(REPO, parts[0])).read()
+            except OSError as e:
+                raise AnchorError(f'expect: cannot read {parts[0]}: {e}')
+            n = len(re.findall(parse_rx(parts[1]), txt))
+            if n != int(parts[2]):
+                raise AnchorError(f'expect: /{parse_rx(parts[1])}/ occurs {n}x in {parts[0]}, expected {parts[2]} (an assumed, unextracted code fact changed)')
+            report.setdefault('expects', []).append(f'{parts[0]}: /{parse_rx(parts[1])}/ x{parts[2]}')
+            i += 1; continue
         if ln.startswith('//@contract-of'):
             # the contract text proved for FN in another unit, restated verbatim here as an assumption
             _, u2, f2 = ln.split()
